@@ -292,6 +292,47 @@ m('update-fixup-skips-marked-rows', ['C15', 'C03'], TP, '''		if tp.GetTupleSize(
 m('rangescan-emits-own-deleted-row', ['C04'], 'lib/execution/executors/range_scan_with_index_executor.go', '''			tpl = nil
 			continue''', '''			continue''', ['C04-R7 [RangeScan.Next:own-deleted-row-not-emitted]'])
 m('final-projection-by-count-only', ['C06', 'C11'], OPT, '''	if !isSameColumnsWithSelectList(solution.OutputSchema(), so.qi.SelectFields) {''', '''	if int(solution.OutputSchema().GetColumnCount()) > len(so.qi.SelectFields) {''', ['C06-R3 [findBestJoin:projection-omitted-only-after-comparing-names]'])
+m('unpin-overwrites-dirty-flag', ['C13'], BPM, '''		if pg.IsDirty() || isDirty {
+			pg.SetIsDirty(true)
+		} else {
+			pg.SetIsDirty(false)
+		}''', '''		pg.SetIsDirty(isDirty)''', ['C13-R6 [UnpinPage:dirty-page-stays-dirty'])
+m('run-forgets-to-free-worker-slot', ['C12'], 'lib/samehada/request_manager.go', '''			reqManager.queMutex.Lock()
+			reqManager.curExectingReqNum--
+''', '''			reqManager.queMutex.Lock()
+''', ['C12-R5 [Run:result-frees-a-worker-slot]'])
+m('commit-skips-index-delete-for-first-index', ['C07'], TM, '''				indexes := cat.GetRollbackNeededIndexes(indexMap, item.oid)
+				for _, idx := range indexes {
+					if idx != nil {
+						idx.DeleteEntry(item.tuple1, *item.rid1, txn)
+					}
+				}
+			}
+		} else if item.wtype == UPDATE {
+			if common.EnableDebug && common.ActiveLogKindSetting&common.CommitAbortHandleInfo > 0 {
+				fmt.Printf("TransactionManager::Commit handle UPDATE''', '''				indexes := cat.GetRollbackNeededIndexes(indexMap, item.oid)
+				for ii, idx := range indexes {
+					if idx != nil {
+						if ii > 0 {
+							idx.DeleteEntry(item.tuple1, *item.rid1, txn)
+						}
+					}
+				}
+			}
+		} else if item.wtype == UPDATE {
+			if common.EnableDebug && common.ActiveLogKindSetting&common.CommitAbortHandleInfo > 0 {
+				fmt.Printf("TransactionManager::Commit handle UPDATE''', ['C07-R5 [Commit:DELETE:DeleteEntry-for-every-index]'])
+m('lockshared-ignores-foreign-x', ['C16', 'C04'], LK, '''	slockSet := txn.GetSharedLockSet()
+	if txnID, ok := lockManager.exclusiveLockTable[*rid]; ok {
+		if txnID == txn.GetTransactionID() {
+			return true
+		} else {
+			return false
+		}
+	} else {''', '''	slockSet := txn.GetSharedLockSet()
+	if txnID, ok := lockManager.exclusiveLockTable[*rid]; ok && txnID != txn.GetTransactionID() && len(slockSet) > 100 {
+		return false
+	} else {''', ['C16-R5 [LockShared:'])
 # drop the one that needs a helper that does not exist
 M = [x for x in M if x['id'] != 'insert-executor-unlocks-early']
 os.chdir(os.path.dirname(os.path.abspath(__file__)) + '/..')
